@@ -383,7 +383,8 @@ impl Story {
 
                     let min_value = min_int.unwrap();
                     let max_value = max_int.unwrap();
-                    let random_range = max_value - min_value + 1;
+                    // Computed in 64 bits: the span of two i32 values does not fit in an i32.
+                    let random_range = max_value as i64 - min_value as i64 + 1;
                     if random_range <= 0 {
                         return Err(StoryError::InvalidStoryState(format!(
                             "RANDOM was called with minimum as {} and maximum as {}. The maximum must be larger",
@@ -391,14 +392,18 @@ impl Story {
                         )));
                     }
 
-                    let result_seed =
-                        self.get_state().story_seed + self.get_state().previous_random;
+                    let result_seed = self
+                        .get_state()
+                        .story_seed
+                        .wrapping_add(self.get_state().previous_random);
                     let mut rng = StdRng::seed_from_u64(result_seed as u64);
                     let next_random = rng.random::<u32>();
-                    let chosen_value = (next_random % random_range as u32) as i32 + min_value;
+                    let chosen_value =
+                        ((next_random as i64 % random_range) + min_value as i64) as i32;
                     self.get_state_mut()
                         .push_evaluation_stack(Rc::new(Value::new::<i32>(chosen_value)));
-                    self.get_state_mut().previous_random = self.get_state().previous_random + 1;
+                    self.get_state_mut().previous_random =
+                        self.get_state().previous_random.wrapping_add(1);
                 }
                 CommandType::SeedRandom => {
                     let mut seed: Option<i32> = None;
@@ -535,8 +540,10 @@ impl Story {
                         // Non-empty source list
                         else {
                             // Generate a random index for the element to take
-                            let result_seed =
-                                self.get_state().story_seed + self.get_state().previous_random;
+                            let result_seed = self
+                                .get_state()
+                                .story_seed
+                                .wrapping_add(self.get_state().previous_random);
                             let mut rng = StdRng::seed_from_u64(result_seed as u64);
                             let next_random = rng.random::<u32>();
                             let list_item_index = (next_random as usize) % list.items.len(); // Iterate through to get the random element, sorted for
